@@ -14,6 +14,9 @@ import PQ.Lemmas.SrcEquivPanicPQ
 import PQ.Lemmas.SrcEquivPanicDQ
 import PQ.Lemmas.SrcEquivPanicBulk
 import PQ.Lemmas.SrcEquivPanicExtend
+import PQ.Lemmas.SrcEquivIter
+import PQ.Lemmas.SrcEquivSmall
+import PQ.Lemmas.SrcEquivCap
 /-!
 # Source-translated tie: audit file
 
@@ -73,6 +76,16 @@ comparison counter `ticks`), the same result value, the same fault with the same
 
 | `Extend` (both queues: `reserve`, `better_to_rebuild`, rebuild or push loop) | `SrcGen.{pq,dq}Extend` | `{MaxQ,DQ}.extend` | `SrcEquiv.{pq,dq}Extend` |
 
+| `priority_queue::IterMut::{new, next}`, `Drop` (no `next_back` / `len` / `size_hint` in the source: checked by the translator) | `SrcGen.pqIterMut{New,Next,Drop}` | `PIterMut.new`, `PIterMut.step … .next`, `MaxQ.heapBuild` | `SrcEquiv.pqIterMut{New,Next,Drop}` |
+| `double_priority_queue::IterMut::{new, next, next_back, len, size_hint}`, `Drop` | `SrcGen.dqIterMut{New,Next,NextBack,Len,SizeHint,Drop}` | `DIterMut.new`, `DIterMut.step`, `DQ.heapBuild` | `SrcEquiv.dqIterMut…` |
+| `IntoSortedIter` of both queues (`next`; DPQ also `next_back`, `len`, `size_hint`) | `SrcGen.pqSortedNext`, `dqSorted{Next,NextBack,Len,SizeHint}` | `MaxQ.pop`, `DQ.popMin`, `DQ.popMax`, `Store.len` | `SrcEquiv.pqSortedNext`, `dqSorted…` |
+| `core_iterators::{Drain, Iter, IntoIter}::{next, next_back, len, size_hint}` (pure delegation) | `SrcGen.{drain,iter,intoIter}{Next,NextBack,Len,SizeHint}` | `Cursor.step` | `SrcEquiv.{drain,iter,intoIter}…` |
+| `into_vec` (store and both queues) | `SrcGen.storeIntoVec`, `{pq,dq}IntoVec` | the items of `map.toList` (`Observe.intoVec`) | `SrcEquiv.storeIntoVec`, `{pq,dq}IntoVec` |
+| `into_sorted_vec`, `into_ascending_sorted_vec`, `into_descending_sorted_vec` | `SrcGen.pqIntoSortedVec`, `dqInto{Asc,Desc}Vec` | the items of `MaxQ.intoSortedVec`, `DQ.into{Ascending,Descending}SortedVec` | `SrcEquiv.pqIntoSortedVec`, `dqInto{Asc,Desc}Vec` |
+| `PartialEq for Store` | `SrcGen.storeEq` | `Store.eqv` | `SrcEquiv.storeEq` |
+| `Serialize for Store` | `SrcGen.storeSerialize` | `(Some(size), map)`: the input `Store.visitSeq` reads | `SrcEquiv.storeSerialize` |
+| `Store::{reserve, reserve_exact, try_reserve, try_reserve_exact, shrink_to_fit, capacity}` | `SrcGen.cap…` (`PQ/Model/SrcCap.lean`) | `Cap.stepC` for every allocator | `SrcEquivCap.cap…_eq` |
+
 Under panics (`PQ/Model/SrcF.lean`: the `fuse`-th comparison panics, frames unwind, the translated `Drop for Hole` runs):
 
 | Rust function | fused twin of `PQ/Model/Crash.lean` | theorem |
@@ -93,6 +106,7 @@ Under panics (`PQ/Model/SrcF.lean`: the `fuse`-th comparison panics, frames unwi
 | `retain_mut`, `retain`, `append`, `From<other queue>` (both queues) | `Crash.{MaxQ,DQ}.{retainMutF, appendF, ofStoreF}` | `SrcEquivF.{pq,dq}{RetainMut,Retain,Append,FromQueue}F` |
 | `From<Vec>`, `FromIterator`, `Deserialize` (both queues; the queue under construction is dropped: `asNew`) | `Crash.{MaxQ,DQ}.{fromVecF, fromIterF, deserializeF}` | `SrcEquivF.{pq,dq}{FromVec,FromIter,Deserialize}F` |
 | `Extend` (both queues) | `Crash.{MaxQ,DQ}.extendF` | `SrcEquivF.{pq,dq}ExtendF` |
+| `Drop for IterMut` (both queues) | `Crash.{MaxQ,DQ}.heapBuildF` | `SrcEquivF.{pq,dq}IterMutDropF` |
 | `Store::clear` when dropping an element panics: tables empty, `size = 0` | (no twin: stated directly) | `SrcEquivF.storeClearF` |
 | every comparison-free function (the `Store` layer, `find_min`, `peek`, `peek_mut`): the fused interpreter IS the plain one | (the plain model) | `SrcEquivF.execF_noPanic`, `callF_pf` |
 
@@ -158,6 +172,35 @@ example : obs (Src.run SrcGen.prog 7 .dqPopMax s3 []) = obsM ((DQ.popMax s3).map
 
 /-- too little fuel is reported as such, never as a wrong result -/
 example : fault (Src.run SrcGen.prog 1 .pqHeapify s3 [0]) = some .fuel := by decide
+
+/-! Under panics: the fused interpreter really crashes where the fuse says, and leaves what the twin leaves. -/
+
+/-- observation of a fused run: `(crashed?, heap, qp, ticks)` -/
+def obsF {α : Type} (proj : α → Store Nat) (r : Crash.CR Nat α) : Option (Bool × Array Nat × Array Nat × Nat) :=
+  match r with
+  | .ok a => some (false, (proj a).heap, (proj a).qp, (proj a).ticks)
+  | .error (.crashed s') => some (true, s'.heap, s'.qp, s'.ticks)
+  | .error _ => none
+
+/-- `heapify(0)` on the three-element store makes two comparisons; the second one panicking leaves the store untouched
+(nothing was swapped yet), with the first comparison counted -/
+example : obsF (·.1) (SrcF.runF SrcGen.prog SrcGen.unwind 2 false 5 .pqHeapify s3 [0]) = some (true, #[0, 1, 2], #[0, 1, 2], 1) ∧
+    obsF id (Crash.MaxQ.heapifyF 2 s3 0) = some (true, #[0, 1, 2], #[0, 1, 2], 1) := by decide
+/-- with the fuse off the fused interpreter gives the plain result -/
+example : obsF (·.1) (SrcF.runF SrcGen.prog SrcGen.unwind 0 false 5 .pqHeapify s3 [0]) = some (false, #[1, 0, 2], #[1, 0, 2], 2) := by
+  decide
+/-- `pop` whose sift-down panics at its first comparison: the removal is complete (two elements left), the entry is lost -/
+example : obsF (·.1) (SrcF.runF SrcGen.prog SrcGen.unwind 1 false 6 .pqPop s3 []) = obsF (·.1) (Crash.MaxQ.popF 1 s3) ∧
+    (obsF (·.1) (Crash.MaxQ.popF 1 s3)).map (·.1) = some true := by decide
+
+/-! Iterators: the cursor code runs on concrete cursors. -/
+example : (match Src.run SrcGen.prog 1 .dqIterMutNextBack s3 [1, 3] with
+    | .ok (_, .cursor fs o) => some (fs, o)
+    | _ => none) = some ([1, 2], some (.slot (some 2))) := by decide
+example : (match Src.run SrcGen.prog 1 .pqIterMutNext s3 [3] with
+    | .ok (_, .cursor fs o) => some (fs, o)
+    | _ => none) = some ([4], some (.slot none)) := by decide
+example : fault (Src.run SrcGen.prog 1 .dqIterMutLen s3 [3, 1]) = some (.arith 401) := by decide
 
 end PQ.SrcTie
 
@@ -287,3 +330,45 @@ end PQ.SrcTie
 #print axioms PQ.SrcEquivF.execF_noPanic
 #print axioms PQ.SrcEquivF.callF_pf
 #print axioms PQ.SrcEquivF.pfSet_ok
+#print axioms PQ.SrcEquivF.pqIterMutDropF
+#print axioms PQ.SrcEquivF.dqIterMutDropF
+#print axioms PQ.SrcEquiv.pqIterMutNew
+#print axioms PQ.SrcEquiv.pqIterMutNext
+#print axioms PQ.SrcEquiv.pqIterMutDrop
+#print axioms PQ.SrcEquiv.dqIterMutNew
+#print axioms PQ.SrcEquiv.dqIterMutNext
+#print axioms PQ.SrcEquiv.dqIterMutNextBack
+#print axioms PQ.SrcEquiv.dqIterMutLen
+#print axioms PQ.SrcEquiv.dqIterMutSizeHint
+#print axioms PQ.SrcEquiv.dqIterMutDrop
+#print axioms PQ.SrcEquiv.pqSortedNext
+#print axioms PQ.SrcEquiv.dqSortedNext
+#print axioms PQ.SrcEquiv.dqSortedNextBack
+#print axioms PQ.SrcEquiv.dqSortedLen
+#print axioms PQ.SrcEquiv.dqSortedSizeHint
+#print axioms PQ.SrcEquiv.drainNext
+#print axioms PQ.SrcEquiv.drainNextBack
+#print axioms PQ.SrcEquiv.drainLen
+#print axioms PQ.SrcEquiv.drainSizeHint
+#print axioms PQ.SrcEquiv.iterNext
+#print axioms PQ.SrcEquiv.iterNextBack
+#print axioms PQ.SrcEquiv.iterLen
+#print axioms PQ.SrcEquiv.iterSizeHint
+#print axioms PQ.SrcEquiv.intoIterNext
+#print axioms PQ.SrcEquiv.intoIterNextBack
+#print axioms PQ.SrcEquiv.intoIterLen
+#print axioms PQ.SrcEquiv.intoIterSizeHint
+#print axioms PQ.SrcEquiv.storeIntoVec
+#print axioms PQ.SrcEquiv.pqIntoVec
+#print axioms PQ.SrcEquiv.dqIntoVec
+#print axioms PQ.SrcEquiv.pqIntoSortedVec
+#print axioms PQ.SrcEquiv.dqIntoAscVec
+#print axioms PQ.SrcEquiv.dqIntoDescVec
+#print axioms PQ.SrcEquiv.storeEq
+#print axioms PQ.SrcEquiv.storeSerialize
+#print axioms PQ.SrcEquivCap.capReserve_eq
+#print axioms PQ.SrcEquivCap.capReserveExact_eq
+#print axioms PQ.SrcEquivCap.capTryReserve_eq
+#print axioms PQ.SrcEquivCap.capTryReserveExact_eq
+#print axioms PQ.SrcEquivCap.capShrinkToFit_eq
+#print axioms PQ.SrcEquivCap.capCapacity_eq
